@@ -15,10 +15,10 @@ trap cleanup EXIT
 ok=1
 cp "$DEMO" "$W/$PKG/zz_seed_demo_test.go"
 TESTS=$(grep -o '^func Test[A-Za-z0-9_]*' "$DEMO" | sed 's/func //' | paste -sd'|')
-(cd "$W/$PKG" && go test -vet=off -count=1 -run "^($TESTS)\$" . >/tmp/conf_clean.$$ 2>&1) && echo "clean-demo: PASS (expected)" || { echo "clean-demo: FAIL (unexpected)"; tail -20 /tmp/conf_clean.$$; ok=0; }
+(cd "$W/$PKG" && go test ${DEMO_FLAGS:-} -vet=off -count=1 -run "^($TESTS)\$" . >/tmp/conf_clean.$$ 2>&1) && echo "clean-demo: PASS (expected)" || { echo "clean-demo: FAIL (unexpected)"; tail -20 /tmp/conf_clean.$$; ok=0; }
 (cd "$W" && git apply "$PATCH") && echo "apply: ok" || { echo "apply: FAILED"; exit 1; }
 (cd "$W" && go build ./... >/tmp/conf_build.$$ 2>&1) && echo "build: ok" || { echo "build: FAILED"; tail /tmp/conf_build.$$; ok=0; }
-(cd "$W/$PKG" && go test -vet=off -count=1 -run "^($TESTS)\$" . >/tmp/conf_mut.$$ 2>&1) && { echo "patched-demo: PASS (unexpected: demo does not detect the change)"; ok=0; } || { echo "patched-demo: FAIL (expected)"; grep -m3 -E '^\s+\S+_test.go:|--- FAIL' /tmp/conf_mut.$$; }
+(cd "$W/$PKG" && go test ${DEMO_FLAGS:-} -vet=off -count=1 -run "^($TESTS)\$" . >/tmp/conf_mut.$$ 2>&1) && { echo "patched-demo: PASS (unexpected: demo does not detect the change)"; ok=0; } || { echo "patched-demo: FAIL (expected)"; grep -m3 -E '^\s+\S+_test.go:|--- FAIL' /tmp/conf_mut.$$; }
 rm -f "$W/$PKG/zz_seed_demo_test.go"
 if [ "$SUITE" = suite ]; then
   (cd "$W" && go test -vet=off -count=1 -timeout 25m ./... >/tmp/conf_suite.$$ 2>&1) && echo "suite-with-patch: PASS (expected)" || { echo "suite-with-patch: FAIL"; grep -E '^(FAIL|--- FAIL|panic)' /tmp/conf_suite.$$ | head; ok=0; }
